@@ -25,6 +25,7 @@ RULES = [
     (r"^fn R_<.*::(initialEnter|cancelledByEntryGuards|finalExit)$", ["C01", "C03", "C04"]),
     (r"^fn R_<.*::cancelledBy(Entry)?Guards$", ["C06"]),
     (r"^fn R_<.*::(update|react|query)$", ["C01", "C05"]),
+    (r"^fn R_<.*::(update|react)$", ["C02", "C08", "C09"]),          # plan step and request processing are driven from here
     (r"^fn R_<.*::(succeed|fail)$", ["C08", "C09", "C16"]),
     (r"^fn R_<.*::(changeTo|immediateChangeTo)$", ["C02", "C16"]),
     (r"^fn RP_<", ["C02", "C07", "C16"]),
